@@ -236,7 +236,7 @@ def install_taps():
 
     def node_key(m, node):
         h = node.config.hostname
-        return ("node", h) if h in m.nodes else None
+        return ("node", h) if m.nodes.get(h) is node else None
 
     def node_tick_post(m, r, node, res, a, k):
         if not r.info["activity"]:
@@ -277,6 +277,7 @@ def install_taps():
         f = m.resolve(key)
         if f is not None:
             m.sh.adopt(key, f.health_status.name, None, "database-restore")  # new object for the path: visible must carry over
+            m.objs[key] = f
         m.cov.hit("db_restore_results", str(bool(res)))
 
     region(DatabaseService, "restore_backup", "restore_backup", swk, None, None, restore_backup_post)
@@ -295,7 +296,7 @@ def install_taps():
 
     def fs_host(m, fs):
         h = fs.sys_log.hostname
-        return ("fs", h) if h in m.nodes else None
+        return ("fs", h) if h in m.nodes and m.nodes[h].file_system is fs else None
 
     def create_pre(m, r, fs, a, k):
         r.info["before"] = {id(f) for fo in list(fs.folders.values()) + list(fs.deleted_folders.values())
@@ -309,7 +310,7 @@ def install_taps():
             m.sh.adopt(key, res.health_status.name, res.visible_health_status.name, "created")
         if hasattr(res, "folder_name"):  # a file created in a folder that did not exist
             fo = fs.get_folder(res.folder_name)
-            if fo is not None and id(fo) not in r.info["before"]:
+            if fo is not None and id(fo) not in r.info["before"] and m.fs_key(fo) is not None:
                 m.sh.adopt(("folder", r.key[1], fo.name), fo.health_status.name, fo.visible_health_status.name, "created")
 
     region(FileSystem, "create_file", "create_file", fs_host, None, create_pre, create_post)
@@ -354,6 +355,8 @@ class Monitor:
         self.conns = []
         self.t = 0
         self.stop = False
+        self.place = "setup"
+        self.objs, self.cur, self.dups = {}, {}, {}
 
     def v(self, mech, msg):
         self.stop = True
@@ -367,9 +370,21 @@ class Monitor:
         if node is None:
             return None
         host = node.config.hostname
-        if host not in self.nodes or sm.software.get(sw.name) is not sw:
+        if self.nodes.get(host) is not node or sm.software.get(sw.name) is not sw:
             return None
         return ("sw", host, sw.name)
+
+    @staticmethod
+    def _pick(live, dead, name):
+        """the item a name denotes: the live one, else the most recently deleted one"""
+        for x in live.values():
+            if x.name == name:
+                return x
+        found = None
+        for x in dead.values():
+            if x.name == name:
+                found = x
+        return found
 
     def resolve(self, key):
         node = self.nodes.get(key[1])
@@ -378,10 +393,10 @@ class Monitor:
         if key[0] == "sw":
             return node.software_manager.software.get(key[2])
         fs = node.file_system
-        fo = fs.get_folder(key[2], include_deleted=True)
+        fo = self._pick(fs.folders, fs.deleted_folders, key[2])
         if key[0] == "folder" or fo is None:
             return fo
-        return fo.get_file(key[3], include_deleted=True)
+        return self._pick(fo.files, fo.deleted_files, key[3])
 
     def fs_key(self, item):
         host = getattr(getattr(item, "sys_log", None), "hostname", None)
@@ -391,23 +406,45 @@ class Monitor:
         return key if self.resolve(key) is item else None
 
     def universe(self):
-        u = {}
+        u, cur, dups = {}, {}, {}
         for host, node in self.nodes.items():
             for name, sw in node.software_manager.software.items():
-                u[("sw", host, name)] = (sw.health_state_actual.name, sw.health_state_visible.name)
+                k = ("sw", host, name)
+                u[k] = (sw.health_state_actual.name, sw.health_state_visible.name)
+                cur[k] = sw
             fs = node.file_system
-            for fo in list(fs.folders.values()) + list(fs.deleted_folders.values()):
-                fk = ("folder", host, fo.name)
-                if fk in u:
-                    continue
+            names = {fo.name for fo in fs.folders.values()} | {fo.name for fo in fs.deleted_folders.values()}
+            for nm in names:
+                fk = ("folder", host, nm)
+                fo = self.resolve(fk)
                 u[fk] = (fo.health_status.name, fo.visible_health_status.name)
-                for f in list(fo.files.values()) + list(fo.deleted_files.values()):
-                    u.setdefault(("file", host, fo.name, f.name), (f.health_status.name, f.visible_health_status.name))
+                cur[fk] = fo
+                dups[fk] = sum(1 for x in list(fs.folders.values()) + list(fs.deleted_folders.values()) if x.name == nm)
+                allf = list(fo.files.values()) + list(fo.deleted_files.values())
+                for fn in {f.name for f in allf}:
+                    k = ("file", host, nm, fn)
+                    f = self._pick(fo.files, fo.deleted_files, fn)
+                    u[k] = (f.health_status.name, f.visible_health_status.name)
+                    cur[k] = f
+                    dups[k] = sum(1 for x in allf if x.name == fn)
+        self.cur, self.dups = cur, dups
         return u
+
+    def sync(self):
+        """quiescent comparison by path. When the object behind a path changed and several same-named (deleted)
+        incarnations exist, which one 'the item' is, is a file-system question (C15), not judged here."""
+        u = self.universe()
+        for key, obj in self.cur.items():
+            old = self.objs.get(key)
+            if old is not None and old is not obj and self.dups.get(key, 0) > 1 and key in self.sh.V:
+                self.sh.adopt(key, u[key][0], u[key][1], "other-incarnation-of-same-name(unjudged)")
+        self.objs = dict(self.cur)
+        self.sh.sync(u, self.place)
 
     # ---- setup
     def build(self, durs, power, backup=True):
         global MON
+        MON = None  # nothing built here may be reported to a monitor of another game (nested calibration)
         d_fix, d_scan, d_rest, d_node = durs
         game = corpus.build_game(scenario(power[0], power[1], backup))
         self.sim = sim = game.simulation
@@ -432,7 +469,7 @@ class Monitor:
         sim.apply_timestep(1)  # the database service takes its backup on timestep 1
         sim.pre_timestep(1)
         MON = self
-        self.sh.sync(self.universe())
+        self.sync()
         self.armed = True
 
     # ---- requests
@@ -497,7 +534,8 @@ class Monitor:
         sh.tick_end()
         self.sim.pre_timestep(self.t)
         self.cov.inc("ticks")
-        sh.sync(self.universe())
+        self.place = "tick"
+        self.sync()
 
     def apply(self, op):
         kind, tgt = op
@@ -529,7 +567,8 @@ class Monitor:
                     self.cov.hit("sql_attacks", f"{kind}|{ok}")
             finally:
                 sh.op = None
-            sh.sync(self.universe())
+            self.place = kind
+            self.sync()
             return
         key = self.key_of(op)
         req = self.request_of(op)
@@ -539,6 +578,7 @@ class Monitor:
             resp = self.sim.apply_request(req)
         finally:
             sh.op = None
+        self.place = kind
         status = getattr(resp, "status", None)
         ok = status == "success"
         self.log[-1].append(status)
@@ -584,7 +624,7 @@ class Monitor:
                 self.cov.hit("cells", f"{key[0]}|{kind.split('_', 1)[1]}")
         if N.operating_state.name != state_before:
             sh.disturb(lambda tk: tk[1][1] == HOST, "power")
-        sh.sync(self.universe())
+        self.sync()
 
     def drain(self):
         """bring N back ON and give every pending timed operation the time to reach its deadline"""
@@ -631,6 +671,7 @@ def calibrate(mech, d, cov, out):
     sub = Cov()
     m = Monitor(sub, out, ctx, calib=lambda mm, dd: None)
     done = {}
+    outer = MON  # calibration may be triggered lazily from inside a running sequence: give the taps back afterwards
     try:
         durs = {"fix": 2, "folder-scan": 2, "folder-restore": 2, "node-scan": 2}
         durs[mech] = d
@@ -663,7 +704,7 @@ def calibrate(mech, d, cov, out):
             m.apply(("tick", None))
     finally:
         m.armed = False
-        MON = None
+        MON = outer
     cov.inc("calibration_runs")
     k = done.get("k")
     cov.hit("calibrated_k", f"{mech}|d={d}|k={k}")
@@ -695,7 +736,7 @@ class Check:
             "stop / start / pause / resume, file corrupt / scan / repair / restore / delete / fs-level restore, folder corrupt / "
             "scan / repair / restore / delete / fs-level restore, node OS scan, shutdown, startup, tick, SQL DELETE / ENCRYPT and "
             "connections from the peer, application install / remove. Words: every word of length 3 over a 27-op core "
-            "alphabet at two duration settings; every word of length 4 over a 10-op timing alphabet at durations 0,1,2,3; "
+            "alphabet at one (thorough: four) duration setting(s); every word of length 4 (thorough: 5) over an 8-op timing alphabet at durations 0,1,2,3; "
             "every pair over the 51-op alphabet; random words of length 30 with random durations in {0..3} (power {0..2}). "
             "Every word is followed by a drain (node back ON, max duration + 2 ticks). Non-trivial word: at least one "
             "visible change inside a scan and one explained true-health change or timed completion; distinct by (durations, word).")
